@@ -100,8 +100,10 @@ def table_name(table):
 def handler_src(route, variant):
     """Klong source of a handler.  variant: v1 | raise | good2 | bad2 (the last two are redefinitions)."""
     rid = route.rid if variant in ('v1', 'raise') else 100 + route.rid
-    if variant in ('raise', 'bad2'):
-        res = '1+"a"'
+    if variant == 'raise':
+        res = '1+"a"'                   # TypeError
+    elif variant == 'bad2':
+        res = ':{[1 2]}@5'              # KeyError: the class the function wrapper uses itself for "name was deleted"
     elif variant == 'v1':
         res = route.res_src
     else:
